@@ -497,3 +497,76 @@ def guards_of(func_node, target, pm=None) -> typing.Optional[typing.Tuple[Guard,
                 cur, par = par, pm.get(id(par))
             return g + extra
     return None
+
+
+# ---------------------------------------------------------------------------
+# syntactic dominance inside one function
+# ---------------------------------------------------------------------------
+def _blocks_of(st: ast.stmt) -> typing.List[typing.Tuple[str, typing.List[ast.stmt]]]:
+    out = []
+    for fld in ("body", "orelse", "finalbody"):
+        b = getattr(st, fld, None)
+        if isinstance(b, list) and b and isinstance(b[0], ast.stmt):
+            out.append((fld, b))
+    for h in getattr(st, "handlers", []) or []:
+        out.append(("handler", h.body))
+    if hasattr(ast, "Match") and isinstance(st, ast.Match):
+        for c in st.cases:
+            out.append(("case", c.body))
+    return out
+
+
+def dominating_stmts(func_node, target_stmt: ast.stmt) -> typing.Optional[typing.List[ast.stmt]]:
+    """Statements that execute before `target_stmt` on every path from function entry (syntactic, conservative):
+    for each block on the ancestor chain, the statements preceding the ancestor in that block; a preceding `with`
+    contributes its body recursively (it always runs), a preceding `try` contributes nothing from inside (may abort),
+    other compound statements contribute only themselves (their header).  Returns None if target is not in func."""
+
+    def flat(st) -> typing.List[ast.stmt]:
+        out = [st]
+        if isinstance(st, (ast.With, ast.AsyncWith)):
+            for s in st.body:
+                out.extend(flat(s))
+        return out
+
+    def search(block, acc):
+        for i, st in enumerate(block):
+            if st is target_stmt:
+                return acc
+            if isinstance(st, (ast.FunctionDef, ast.AsyncFunctionDef, ast.ClassDef)):
+                # nested definitions: body does not run here
+                acc = acc + [st]
+                continue
+            for kind, b in _blocks_of(st):
+                inner_acc = acc + ([st] if kind in ("body", "orelse", "handler", "case", "finalbody") else [])
+                if isinstance(st, (ast.With, ast.AsyncWith)):
+                    inner_acc = acc + [st]
+                r = search(b, inner_acc)
+                if r is not None:
+                    return r
+            acc = acc + flat(st)
+        return None
+
+    return search(func_node.body, [])
+
+
+def stmts_after(func_node, target_stmt: ast.stmt) -> typing.List[ast.stmt]:
+    """Statements that follow `target_stmt` in its own block and in enclosing blocks (what runs after it completes)."""
+    res: typing.List[ast.stmt] = []
+
+    def search(block):
+        for i, st in enumerate(block):
+            if st is target_stmt:
+                res.extend(block[i + 1:])
+                return True
+            for _, b in _blocks_of(st):
+                if search(b):
+                    if not isinstance(st, (ast.For, ast.AsyncFor, ast.While)):
+                        res.extend(block[i + 1:])
+                    else:
+                        res.extend(block[i + 1:])
+                    return True
+        return False
+
+    search(func_node.body)
+    return res
